@@ -313,7 +313,8 @@ class _getitem_mask:
 # ---------------------------------------------------------------------------------------------- copy (C12)
 
 def _copy_cfgs():
-    return [{"dim": d, "kind": k, "incl": i} for d in (1, 2) for k in ("fixed", "gapped", "numpy") for i in (True, False)]
+    return [{"dim": d, "kind": k, "incl": i} for d in (1, 2) for k in ("fixed", "gapped", "numpy") for i in (True, False)] + \
+           [{"dim": d, "kind": "fixed", "incl": True, "keep_missed": False} for d in (1, 2)]      # histograms that do not keep missed values
 
 
 @contract(HB + ".copy", props=["C12", "C14"], name="Histogram.copy")
@@ -324,7 +325,7 @@ class _copy:
 
     def inputs(b):
         c = b.cfg
-        return dict(self=mk_hist(b, "h", c.dim, 2, c.kind, "int64"), include_frequencies=c.incl)
+        return dict(self=mk_hist(b, "h", c.dim, 2, c.kind, "int64", keep_missed=getattr(c, "keep_missed", True)), include_frequencies=c.incl)
 
     def invoke(I, fn, a, cfg):
         if I is not None:
